@@ -58,6 +58,7 @@ func init() {
 		return goInt(in.p.choose(int(in.concInt(args[0], "Choose bound", 1))))
 	})
 	reg(s("Assume"), func(in *Interp, fr *frame, args []value) value {
+		in.p.flushBatch()
 		c := in.bterm(args[0])
 		if c.IsFalse() {
 			panic(abortPath{"infeasible", "assumption false"})
@@ -77,6 +78,7 @@ func init() {
 		return nil
 	})
 	reg(s("MustFail"), func(in *Interp, fr *frame, args []value) value {
+		in.p.flushBatch()
 		c := in.bterm(args[0])
 		msg := in.str(args[1])
 		ok := false
@@ -92,6 +94,7 @@ func init() {
 		return nil
 	})
 	reg(s("Known"), func(in *Interp, fr *frame, args []value) value {
+		in.p.flushBatch()
 		id := in.str(args[0])
 		if !in.x.OpenKnown[id] {
 			return nil
@@ -140,6 +143,32 @@ func init() {
 			return goInt(v)
 		}
 		return args[1]
+	})
+	reg(s("KeyIndex"), func(in *Interp, fr *frame, args []value) value {
+		fail := tuple{"", mkInt(64, false, 0), false}
+		switch k := args[0].(type) {
+		case *sstr:
+			if k.b == nil && k.lazy != nil {
+				if pre, x, ok := k.lazy.keyParts(); ok {
+					return tuple{pre, mkIntTerm(64, false, in.p.C.Resize(in.iterm(x), 64, false)), true}
+				}
+			}
+			return fail
+		case string:
+			i := len(k)
+			for i > 0 && k[i-1] >= '0' && k[i-1] <= '9' {
+				i--
+			}
+			if i == len(k) || len(k)-i > 18 {
+				return fail
+			}
+			var n uint64
+			for _, ch := range k[i:] {
+				n = n*10 + uint64(ch-'0')
+			}
+			return tuple{k[:i], mkInt(64, false, n), true}
+		}
+		return fail
 	})
 	reg(s("Reset"), func(in *Interp, fr *frame, args []value) value { return nil })
 	reg(s("SetInputLines"), func(in *Interp, fr *frame, args []value) value {
